@@ -235,7 +235,7 @@ def c07_streams(seed, tier):
 
 
 def c08_streams(seed, tier):
-    prof = Profile(held_at_insert_p=0.9, lifecycle_p=0.25, n_ctx=(2, 3), keys=[0, 1, 2], modmask_p=0.4, toggle_p=0.3,
+    prof = Profile(actions=NONCONSUMING, held_at_insert_p=0.9, lifecycle_p=0.25, n_ctx=(2, 3), keys=[0, 1, 2], modmask_p=0.4, toggle_p=0.3,
                    cond_kinds=SCRIPTED, mod_kinds=CUSTOM_MODS, n_iconds=(0, 2), n_aconds=(0, 1), log_raw_p=1.0,
                    ui_p=0.1, input_kinds=["key"] * 5 + ["mbtn"] * 2 + ["padbtn", "padaxis"])
     return gen.app_batch(seed, 400 if tier == "quick" else 15000, prof, "c08r") + with_loggers(c08_directed())
@@ -266,7 +266,7 @@ def c10_streams(seed, tier):
 
 
 def c12_streams(seed, tier):
-    prof = Profile(actions=NONCONSUMING, modmask_p=0.4, n_imods=(0, 3), n_iconds=(0, 3), n_amods=(0, 3), n_aconds=(0, 3), n_inputs=(0, 4), held_at_insert_p=0.0,
+    prof = Profile(actions=NONCONSUMING, modmask_p=0.4, pads=(0, 0), n_imods=(0, 3), n_iconds=(0, 3), n_amods=(0, 3), n_aconds=(0, 3), n_inputs=(0, 4), held_at_insert_p=0.0,
                    cond_kinds=SCRIPTED, mod_kinds=CUSTOM_MODS, lifecycle_p=0.0)
     return gen.app_batch(seed, 400 if tier == "quick" else 15000, prof, "c12r")
 
@@ -760,8 +760,10 @@ def wide_stream(prop):
     everything is in play here, only differences in the property's *output* facts under equal upstream facts are reported
     from this stream; upstream differences are counted, not reported (tools/facts.py, check)."""
     def f(seed, tier):
-        prof = Profile(lifecycle_p=0.08, react_p=0.25, post_p=0.05, ui_p=0.05, held_at_insert_p=0.25, each_p=0.2, route_p=0.2,
-                       preset_p=0.1, time_p=0.15, pads=(0, 2), log_raw_p=1.0 if prop in ("C05", "C06", "C08", "C15", "C16") else 0.3,
+        # (C12 / C13 are decided on the invocation log; which bindings are still suppressed after creation is C08's business)
+        prof = Profile(lifecycle_p=0.08, react_p=0.25, post_p=0.05, ui_p=0.05,
+                       held_at_insert_p=0.0 if prop in ("C12", "C13") else 0.25, each_p=0.2, route_p=0.2,
+                       preset_p=0.1, time_p=0.15, pads=(0, 0) if prop in ("C12", "C13") else (0, 2), log_raw_p=1.0 if prop in ("C05", "C06", "C08", "C15", "C16") else 0.3,
                        n_ctx=(1, 3), n_entities=(1, 3))
         return gen.app_batch(seed + 7919, 150 if tier == "quick" else 5000, prof, prop.lower() + "w")
     return f
